@@ -47,6 +47,16 @@ EncodedTermStructure = namedtuple(
 )
 
 
+def _copy_state(state: Any) -> Any:
+    """
+    Copy the (nested) dictionary structure of transform/encoder state. Leaf
+    values are shared, since they are replaced rather than mutated.
+    """
+    if type(state) is dict:
+        return {key: _copy_state(value) for key, value in state.items()}
+    return state
+
+
 class FormulaMaterializerMeta(InterfaceMeta):
     INTERFACE_RAISE_ON_VIOLATION = True
 
@@ -323,6 +333,14 @@ class FormulaMaterializer(metaclass=FormulaMaterializerMeta):
             overrides: dict[str, Any] = {
                 "materializer": self.REGISTER_NAME,
                 "materializer_params": self.params,
+                # Materialization records learned state in these dictionaries.
+                # `update()` shares them by reference, so work on private
+                # copies and leave the caller's spec untouched.
+                "transform_state": _copy_state(model_spec.transform_state),
+                "encoder_state": {
+                    expr: (kind, _copy_state(state))
+                    for expr, (kind, state) in model_spec.encoder_state.items()
+                },
             }
 
             if model_spec.output is None:
